@@ -4,11 +4,15 @@
   Statements are about `CijModel/QhaInput.lean` and `CijModel/ElastDat.lean` (the functions the driver runs
   against the real `read_energy` / `write_energy` / `read_elast_data` / `cij fill`).  Numbers are abstract:
   every theorem holds for ANY number type and ANY formatter/parser pair with `parse (fmt k x) = some (round k x)`
-  (`NumFmt.Lawful`).  Character-level lexing, `printf`, `float()` and pandas' `to_string` are outside the model
-  (tested through the real functions by `harness/c17.py`).
+  (`NumFmt.Lawful`).  For the instance the driver and the correspondence run use — exact decimals over `Rat`,
+  `Lex.ratFmt` — the law is itself a theorem, proved at character level (`rat_parse_fmt`, from
+  `CijProofs/Lemmas/DecimalFmt.lean`), so the `…_rat` corollaries below carry no formatter hypothesis.
+  That Python's `printf`/`float()`, `strip`/`split` and pandas' `to_string` behave as `Lex.ratFmt` / the token
+  lists do is outside the model (tested through the real functions by `harness/c17.py`).
 -/
 import CijProofs.Lemmas.QhaInput
 import CijProofs.Lemmas.ElastDat
+import CijProofs.Lemmas.DecimalFmt
 
 namespace Cij.C17
 open Cij Cij.Lex Cij.QhaInput Cij.ElastDat
@@ -296,6 +300,130 @@ example : (readElastData ratFmt sampleTable).map (fun d => (d.nv, d.volumes.leng
 example : (fillCmd ratFmt ratFmt 6 (fun t => some ⟨t.names ++ ["c55"], t.rows.map fun r => r ++ [r.getD 3 0]⟩) sampleTable).bind
       (fun out => (readElastData ratFmt out).map fun d => (out.take 2, d.lattice, d.volumes.map fun v => v.moduli.length)) =
     some (sampleTable.take 2, [[1, mkRat 4 5, mkRat 29 10], [mkRat 9 10, mkRat 4 5, mkRat 14 5]], [4, 4]) := by
+  decide +kernel
+
+/-! ### the driver's instance `Lex.ratFmt`: the formatter law is a theorem, the corollaries are hypothesis-free -/
+
+/-- THE LAW, character level, for every precision and every rational (no sign / `k = 0` / zero corner excluded):
+parsing the characters `"%.{k}f"` prints gives the value rounded half-even to `k` decimals. -/
+theorem rat_parse_fmt (k : Nat) (q : Rat) : ratParse (ratFmtStr k q) = some (ratRound k q) :=
+  Lex.ratParse_ratFmtStr k q
+
+/-- the same, as the `Lawful` predicate the generic theorems ask for -/
+theorem rat_lawful : ratFmt.Lawful := Lex.ratFmt_lawful
+
+/-- `read_write_energy` for the driver's numbers: no hypothesis on the formatter is left -/
+theorem read_write_energy_rat (d : Data Rat) (hd : WellFormed d) (comment : Line) (hc : matchInfo comment = none) :
+    ∃ ls, writeEnergy ratFmt d comment = some ls ∧ readEnergy ratFmt ls = some (roundAll ratFmt d) :=
+  read_write_energy ratFmt rat_lawful d hd comment hc
+
+/-- `read_write_counts` for the driver's numbers -/
+theorem read_write_counts_rat (d : Data Rat) (hd : WellFormed d) (comment : Line) (hc : matchInfo comment = none) :
+    ∃ ls r, writeEnergy ratFmt d comment = some ls ∧ readEnergy ratFmt ls = some r ∧
+      (r.nv, r.nq, r.np, r.nm, r.na) = (d.nv, d.nq, d.np, d.nm, d.na) ∧
+      r.volumes.length = d.nv ∧ r.weights.length = d.nq ∧
+      (∀ v ∈ r.volumes, v.qPoints.length = d.nq ∧ ∀ q ∈ v.qPoints, q.modes.length = d.np) :=
+  read_write_counts ratFmt rat_lawful d hd comment hc
+
+/-- `fill_cmd_reparse` with reader and printer both the exact-decimal instance, any printed precision `k`:
+the hypothesis `hP` is discharged by `rat_parse_fmt` -/
+theorem fill_cmd_reparse_rat (k : Nat) (fill : Table Rat → Option (Table Rat))
+    (t : TableFile Rat) (kv : Key) (keys : List Key) (h : t.Ok ratFmt kv keys)
+    (hw : ∀ r ∈ t.rows, r.2.length = t.names.length) (tail : List Line)
+    (vname' : Token) (names' : List Token) (rows' : List (Rat × List Rat)) (kv' : Key) (keys' : List Key)
+    (hfill : fill t.frame = some ⟨vname' :: names', rows'.map fun r => r.1 :: r.2⟩)
+    (hrows : rows'.length = t.rows.length)
+    (hkv : findModulusKey vname' = some kv') (hkeys : names'.mapM findModulusKey = some keys') :
+    ∃ out, fillCmd ratFmt ratFmt k fill (t.lines ++ tail) = some out ∧
+      out.take 2 = [t.title, t.header2] ∧
+      readElastData ratFmt out = (readTail ratFmt t.rows.length tail).map fun lat =>
+        { vref := t.vref.2, nv := t.rows.length, cellmass := t.mass.2,
+          volumes := rows'.map (fun r => ⟨ratRound k r.1, dictOfZip keys' (r.2.map (ratRound k))⟩), lattice := lat } :=
+  fill_cmd_reparse ratFmt ratFmt k (fun x => rat_parse_fmt k x) fill t kv keys h hw tail vname' names' rows' kv' keys'
+    hfill hrows hkv hkeys
+
+/-- `fill_output_is_table` with reader and printer both the exact-decimal instance (`hP` discharged) -/
+theorem fill_output_is_table_rat (k : Nat) (fill : Table Rat → Option (Table Rat))
+    (t : TableFile Rat) (kv : Key) (keys : List Key) (h : t.Ok ratFmt kv keys)
+    (hw : ∀ r ∈ t.rows, r.2.length = t.names.length) (hne : t.rows ≠ []) (hnd : keys.Nodup) (tail : List Line)
+    (cn : List Token) (hcn : keys.mapM canonName = some cn)
+    (vname' : Token) (names' : List Token) (kv' : Key) (keys' : List Key) (R : List (List Rat))
+    (hR : R.length = t.rows.length)
+    (hfile : fill t.frame = some ⟨vname' :: names', List.zipWith (fun r x => r.1.2 :: x) t.rows R⟩)
+    (cn' : List Token) (hcanon : fill ⟨cn, t.rows.map fun r => r.2.map Prod.snd⟩ = some ⟨cn', R⟩)
+    (hkv : findModulusKey vname' = some kv') (hkeys : names'.mapM findModulusKey = some keys')
+    (hkeys2 : cn'.mapM keyOfName = some keys') :
+    ∃ out, fillCmd ratFmt ratFmt k fill (t.lines ++ tail) = some out ∧
+      out.take 2 = [t.title, t.header2] ∧
+      readElastData ratFmt out
+        = ((readElastData ratFmt (t.lines ++ tail)).bind (applySymmetry fill)).map (roundData ratFmt k) :=
+  fill_output_is_table ratFmt ratFmt k (fun x => rat_parse_fmt k x) fill t kv keys h hw hne hnd tail cn hcn
+    vname' names' kv' keys' R hR hfile cn' hcanon hkv hkeys hkeys2
+
+/-! #### what "rounded to the printed precision" means for the driver's numbers -/
+
+/-- the surviving value is within half a unit of the last printed decimal of the original -/
+theorem rat_round_error (k : Nat) (q : Rat) : |ratRound k q - q| ≤ 1 / (2 * (10 : Rat) ^ k) := Lex.ratRound_err k q
+
+/-- rounding is idempotent: a value that has been through the file once is not changed by a second pass -/
+theorem rat_round_idem (k : Nat) (q : Rat) : ratRound k (ratRound k q) = ratRound k q := Lex.ratRound_idem k q
+
+/-- rounding preserves order (so sorted grids stay sorted through the file) -/
+theorem rat_round_mono (k : Nat) {p q : Rat} (h : p ≤ q) : ratRound k p ≤ ratRound k q := Lex.ratRound_mono k h
+
+/-- every multiple of 10^-k is read back exactly -/
+theorem rat_round_grid (k : Nat) (n : Int) : ratRound k (mkRat n (pow10 k)) = mkRat n (pow10 k) := Lex.ratRound_of_grid k n
+
+/-- hence the data set that survives one round trip is a fixed point of the rounding … -/
+theorem roundAll_idem_rat (d : Data Rat) : roundAll ratFmt (roundAll ratFmt d) = roundAll ratFmt d := by
+  have h : ∀ k q, ratFmt.round k (ratFmt.round k q) = ratFmt.round k q := rat_round_idem
+  simp [roundAll, roundVolume, roundQPoint, roundWeight, Function.comp_def, h]
+
+/-- … and the second write/read round trip is EXACT: what was read from a file written by `write_energy`
+is reproduced digit for digit by writing and reading it again -/
+theorem read_write_energy_rat_fixed (d : Data Rat) (hd : WellFormed d) (comment : Line) (hc : matchInfo comment = none) :
+    ∃ ls, writeEnergy ratFmt (roundAll ratFmt d) comment = some ls ∧ readEnergy ratFmt ls = some (roundAll ratFmt d) := by
+  have hwf : WellFormed (roundAll ratFmt d) := by
+    refine ⟨by simp [roundAll, hd.nv_eq], ?_, ?_, by simp [roundAll, hd.nw_eq], ?_⟩
+    · intro v hv
+      simp only [roundAll, List.mem_map] at hv
+      obtain ⟨v0, hv0, rfl⟩ := hv
+      simp [roundVolume, roundAll, hd.nq_eq v0 hv0]
+    · intro v hv q hq
+      simp only [roundAll, List.mem_map] at hv
+      obtain ⟨v0, hv0, rfl⟩ := hv
+      simp only [roundVolume, List.mem_map] at hq
+      obtain ⟨q0, hq0, rfl⟩ := hq
+      simp [roundQPoint, roundAll, hd.np_eq v0 hv0 q0 hq0]
+    · intro w hw
+      simp only [roundAll, List.mem_map] at hw
+      obtain ⟨w0, hw0, rfl⟩ := hw
+      simp [roundWeight, hd.w3 w0 hw0]
+  have := read_write_energy_rat (roundAll ratFmt d) hwf comment hc
+  rwa [roundAll_idem_rat] at this
+
+/-- non-vacuity of the `_rat` corollaries, end to end on text: one volume, one q-point, two modes; a tie
+(1/128 → "0.007812"), a negative value rounding to zero (prints "-0.000000", reads back as 0), a negative energy -/
+def tiny : Data Rat :=
+  { nv := 1, nq := 1, np := 2, nm := 3, na := 1,
+    weights := [⟨[0, mkRat 1 2, mkRat (-1) 3], 2⟩],
+    volumes := [⟨mkRat (-1) 10000000, mkRat 1 128, mkRat (-22) 7, [⟨[mkRat 1 3, 0, mkRat (-1) 2], [mkRat 3 128, 100]⟩]⟩] }
+
+example : WellFormed tiny := by
+  refine ⟨rfl, ?_, ?_, rfl, ?_⟩ <;> decide +kernel
+
+example : writeEnergy ratFmt tiny = some
+    [["QHA", "Input", "data"], [], ["nv", "nq", "np", "nm", "na"], ["1", "1", "2", "3", "1"], [],
+     ["P=", "-0.000000", "V=", "0.007812", "E=", "-3.142857"],
+     ["0.3333", "0.0000", "-0.5000"], ["0.023438"], ["100.000000"],
+     [], ["weight"], ["0.000000", "0.500000", "-0.333333", "2.000000"]] := by
+  decide +kernel
+
+example : (writeEnergy ratFmt tiny).bind (readEnergy ratFmt) = some
+    { nv := 1, nq := 1, np := 2, nm := 3, na := 1,
+      weights := [⟨[0, mkRat 1 2, mkRat (-333333) 1000000], 2⟩],
+      volumes := [⟨0, mkRat 7812 1000000, mkRat (-3142857) 1000000,
+        [⟨[mkRat 3333 10000, 0, mkRat (-1) 2], [mkRat 23438 1000000, 100]⟩]⟩] } := by
   decide +kernel
 
 end Cij.C17
